@@ -773,6 +773,11 @@ def m_missing_super(s, rng):
             d.uniques = [u for u in d.uniques if u.attr in vis and
                          (u.qual is None or (u.qual in anc and any(a.name == u.attr for a in s.find(u.qual).attrs)))]
             d.rules = [r for r in d.rules if r.kw.get("attr") is None or r.kw["attr"] in vis]
+            # DERIVE initialisers / bounds: identifiers that named an attribute no longer inherited go away as well
+            allattrs = {a.name for y in s.entities() for a in y.attrs + y.derives}
+            vis |= {a.name for a in d.derives} | {a.name for an in anc if isinstance(s.find(an), Entity) for a in s.find(an).derives}
+            for x2 in [a.expr for a in d.derives] + [a.bound for a in d.attrs if a.bound is not None]:
+                x2.refs = [r for r in x2.refs if r not in allattrs or r in vis]
         return Fault("missing-supertype", s, [("MISSING_SUPERTYPE", [p.name, n])])
     ents = s.entities()
     p = rng.choice(ents)
